@@ -798,6 +798,9 @@ def check_simulator(ctx):
 
 
 def run(ctx):
+    from ..lints import check_stale_loop_variables
+
+    check_stale_loop_variables(ctx, "C04-D9 loop-variables", ['wavefunction', 'measurements.measurements', 'measurements.parities', 'utils', 'operators._openfermion_utils.sparse_tools', 'distributions._measurement_outcome_distribution', 'circuits._unitary_tools'])
     repo = ctx.repo
     try:
         pi_key = outcome_key_parity(ctx)
